@@ -56,7 +56,7 @@ def gen_run(rng, stop=None, **over):
                'Lgf': f2h(rng.choice([0.95, 0.95, 1.0, 0.5])),
                'maxiter': str(rng.choice([0, 1, 2, 3, 5, 20, 60])),
                'tol': f2h(rng.choice([1e-8, 1e-3, 1e-1, 10.0])),
-               'crit': str(rng.randrange(10)), 'maxnp': str(rng.choice([1, 2, 10])),
+               'crit': str(rng.randrange(10)), 'maxnp': str(rng.choice([0, 1, 2, 10])),
                'overwrite': str(rng.randint(0, 1)), 'noacc': str(rng.choice([0, 0, 0, 1])),
                'stopat': '0', 'stopcb': '0', 'nanat': str(rng.choice([0] * 9 + [rng.randint(1, 12)])),
                'oot': str(rng.choice([0] * 19 + [1])), 'wmscratch': str(rng.choice([0, 0, 1]))})
